@@ -376,6 +376,30 @@ class SymArray:
     def __truediv__(self, o): return self._bin(o, lambda a, b: _div0(a, b), self._fdt(o))
     def __rtruediv__(self, o): return self._bin(o, lambda a, b: _div0(b, a), self._fdt(o))
 
+    # ---- in-place operators: numpy writes into the *same* buffer (every alias of the array sees the result) and
+    # refuses results that cannot be cast back under the `same_kind` rule (int array <- float result)
+    def _inplace(self, r, opname):
+        if not isinstance(r, SymArray):
+            return NotImplemented
+        if r.shape != self.shape:
+            raise ValueError(f"non-broadcastable output operand with shape {self.shape} doesn't match the broadcast shape {r.shape}")
+        order = {"bool": 0, "i4": 1, "i8": 1, "f4": 2, "f8": 2, "object": 3}
+        if order.get(r.dtype_tag, 3) > order.get(self.dtype_tag, 3):
+            raise TypeError(f"Cannot cast ufunc '{opname}' output from dtype('{DType(r.dtype_tag).name}') to "
+                            f"dtype('{DType(self.dtype_tag).name}') with casting rule 'same_kind'")
+        if self.ndim == 2:
+            for ro, rr in zip(self.d, r.d):
+                ro.d[:] = [ro._coerce(v) for v in rr.d]
+        else:
+            self.d[:] = [self._coerce(v) for v in r.d]
+        return self
+
+    def __iadd__(self, o): return self._inplace(self + o, "add")
+    def __isub__(self, o): return self._inplace(self - o, "subtract")
+    def __imul__(self, o): return self._inplace(self * o, "multiply")
+    def __itruediv__(self, o): return self._inplace(self / o, "divide")
+    def __ipow__(self, o): return self._inplace(self ** o, "power")
+
     def __pow__(self, o):
         c = concrete(o) if _is_scalar(o) else None
         if c is not None and c.denominator == 1 and c >= 0:
@@ -628,8 +652,24 @@ def asarray(x, dtype=None):
     raise Unsupported(f"asarray({type(x).__name__})")
 
 
+def _into(out, r):
+    """numpy's `out=` argument: store the result into the given array (write-through) and return it."""
+    if out is None:
+        return r
+    if not isinstance(out, SymArray) or not isinstance(r, SymArray) or out.shape != r.shape:
+        raise Unsupported("out= with mismatching shapes")
+    if out.ndim == 2:
+        for ro, rr in zip(out.d, r.d):
+            ro.d[:] = [ro._coerce(v) for v in rr.d]
+    else:
+        out.d[:] = [out._coerce(v) for v in r.d]
+    return out
+
+
 def _unary(f):
-    def g(x, dtype=None, **kw):
+    def g(x, dtype=None, out=None, **kw):
+        if out is not None:
+            return _into(out, g(x, dtype=dtype, **kw))
         if isinstance(x, (list, tuple)):
             x = asarray(x)
         if isinstance(x, SymArray):
@@ -765,7 +805,11 @@ class NP:
             out.append(b if j == n - 1 else a + (b - a) * Q(j, n - 1))
         return asarray(out, "f8")
 
-    def arange(self, *args):
+    def arange(self, *args, dtype=None):
+        if dtype is not None:
+            r = self.arange(*args)
+            tag = _norm_dtype(dtype)
+            return r.astype(tag) if tag != r.dtype_tag else r
         cs = [concrete(a) for a in args]
         if any(c is None for c in cs):
             raise Unsupported("arange with symbolic arguments")
@@ -782,14 +826,123 @@ class NP:
     def logspace(self, a, b, n):
         return self.linspace(a, b, n)._map(lambda v: Q(10) ** v)
 
-    def concatenate(self, arrs):
+    def concatenate(self, arrs, axis=0, dtype=None):
         out = []
         dt = None
         for a in arrs:
             a = asarray(a)
+            if not isinstance(a, SymArray):
+                raise ValueError("zero-dimensional arrays cannot be concatenated")
+            if a.ndim != 1:
+                raise Unsupported("concatenate of 2-D arrays")
             out.extend(a.d)
             dt = a.dtype_tag if dt is None else _promote(dt, a.dtype_tag)
-        return SymArray(out, dt or "f8")
+        r = SymArray([], _norm_dtype(dtype) or dt or "f8")
+        r.d = [r._coerce(v) for v in out]
+        return r
+
+    def append(self, a, v):
+        return self.concatenate([asarray(a), asarray(v) if not _is_scalar(v) else asarray([v])])
+
+    def hstack(self, arrs):
+        return self.concatenate([asarray(a) if not _is_scalar(a) else asarray([a]) for a in arrs])
+
+    def flip(self, a, axis=None):
+        a = asarray(a)
+        return SymArray(list(reversed(a.d)), a.dtype_tag, a.shape if a.ndim == 2 else None)
+
+    def diff(self, a, n=1, axis=-1, prepend=None, append=None):
+        a = asarray(a)
+        if a.ndim != 1 or int(n) != 1:
+            raise Unsupported("np.diff beyond first differences of 1-D arrays")
+        parts = []
+        if prepend is not None:
+            parts.append(asarray(prepend) if not _is_scalar(prepend) else asarray([prepend]))
+        parts.append(a)
+        if append is not None:
+            parts.append(asarray(append) if not _is_scalar(append) else asarray([append]))
+        if len(parts) > 1:
+            a = self.concatenate(parts)
+        return SymArray([_chk(a.d[j + 1]) - _chk(a.d[j]) for j in range(len(a.d) - 1)], a.dtype_tag if a.dtype_tag != "bool" else "bool")
+
+    def ediff1d(self, a):
+        return self.diff(a)
+
+    def interp(self, x, xp, fp, left=None, right=None, period=None):
+        """numpy.interp: piecewise-linear through (xp, fp) with constant ends.  numpy does NOT check that xp is increasing;
+        on other abscissae its result is unspecified - modelled as an arbitrary (havoc'd) value, so any property that
+        depends on it gets a counterexample candidate which is then replayed on the real code."""
+        if period is not None:
+            raise Unsupported("np.interp(period=)")
+        xp, fp = asarray(xp), asarray(fp)
+        if len(xp.d) != len(fp.d):
+            raise ValueError("fp and xp are not of the same length.")
+        if len(xp.d) == 0:
+            raise ValueError("array of sample points is empty")
+        n = len(xp.d)
+        increasing = True
+        for j in range(n - 1):
+            if not bool(_cmp(xp.d[j], xp.d[j + 1], "lt")):     # symbolic: splits the path
+                increasing = False
+                break
+        lo = fp.d[0] if left is None else left
+        hi = fp.d[-1] if right is None else right
+
+        def one(q):
+            q = _chk(q)
+            if not increasing:
+                from ..sx.sym import fresh
+                return fresh("np_interp_unsorted")
+            if n == 1:
+                return s_ite(_cmp(q, xp.d[0], "lt"), lo, s_ite(_cmp(q, xp.d[0], "gt"), hi, fp.d[0]))
+            r = hi
+            for j in range(n - 2, -1, -1):
+                x0, x1, f0, f1 = xp.d[j], xp.d[j + 1], fp.d[j], fp.d[j + 1]
+                r = s_ite(_cmp(q, x1, "le"), f0 + (f1 - f0) * ((q - x0) / (x1 - x0)), r)
+            return s_ite(_cmp(q, xp.d[0], "lt"), lo, r)
+        if _is_scalar(x):
+            return one(x)
+        x = asarray(x)
+        return x._map(one, "f8")
+
+    def putmask(self, a, mask, values):
+        """a.flat[n] = values[n % len(values)] wherever mask.flat[n] (NOT sequential consumption - that is np.place)."""
+        mask = asarray(mask)
+        vals = asarray(values) if not _is_scalar(values) else asarray([values])
+        if a.ndim != 1 or mask.shape != a.shape:
+            raise Unsupported("putmask shapes")
+        idx = a._mask_indices(mask)
+        if idx and not len(vals.d):
+            raise ValueError("cannot assign an empty array to a non-empty mask selection")
+        for n in idx:
+            a.d[n] = a._coerce(vals.d[n % len(vals.d)])
+
+    def place(self, a, mask, values):
+        mask = asarray(mask)
+        vals = asarray(values) if not _is_scalar(values) else asarray([values])
+        idx = a._mask_indices(mask)
+        if idx and not len(vals.d):
+            raise ValueError("Cannot insert from an empty array!")
+        for k, n in enumerate(idx):
+            a.d[n] = a._coerce(vals.d[k % len(vals.d)])
+
+    def copyto(self, dst, src, where=True):
+        src_a = asarray(src) if not _is_scalar(src) else None
+        if where is True:
+            dst[:] = src
+            return
+        idx = dst._mask_indices(asarray(where))
+        for n in idx:
+            dst.d[n] = dst._coerce(src_a.d[n] if src_a is not None else src)
+
+    def sort(self, a):
+        raise Unsupported("np.sort on symbolic values")
+
+    def argsort(self, a):
+        raise Unsupported("np.argsort on symbolic values")
+
+    def isin(self, *a, **k):
+        raise Unsupported("np.isin")
 
     # inspection
     def ndim(self, x):
@@ -819,7 +972,7 @@ class NP:
         x = asarray(x)
         return x.sum(axis) if isinstance(x, SymArray) else x
 
-    def cumsum(self, x):
+    def cumsum(self, x, axis=None, dtype=None):
         x = asarray(x)
         out, acc = [], Q(0)
         for v in x.d:
@@ -843,11 +996,11 @@ class NP:
 
     amax, amin = max, min
 
-    def minimum(self, a, b):
-        return self._ew2(a, b, s_min)
+    def minimum(self, a, b, out=None):
+        return _into(out, self._ew2(a, b, s_min))
 
-    def maximum(self, a, b):
-        return self._ew2(a, b, s_max)
+    def maximum(self, a, b, out=None):
+        return _into(out, self._ew2(a, b, s_max))
 
     def _ew2(self, a, b, f):
         a = asarray(a) if not _is_scalar(a) else a
@@ -858,7 +1011,13 @@ class NP:
             return b._bin(a, lambda y, x: f(_chk(x), _chk(y)))
         return f(a, b)
 
-    def clip(self, x, lo, hi):
+    def clip(self, x, lo=None, hi=None, out=None, **kw):
+        lo = kw.get("a_min", kw.get("min", lo))
+        hi = kw.get("a_max", kw.get("max", hi))
+        r = self._clip(x, lo, hi)
+        return _into(out, r)
+
+    def _clip(self, x, lo, hi):
         def c(v):
             v = _chk(v)
             if lo is not None:
